@@ -7,7 +7,7 @@ CONSTANTS
   NewObjs <- MCNewObjs
   InheritBound <- MCInheritBound
   MaxDepth = 4
-  Starts <- StartsObj
+  Starts <- StartsObj1
   Allowed = {"resources.shadow.deep", "fresh.aboveMax", "maxid.setObject", "counts.indirect", "delete.bookmark"}
   Emit = TRUE
   EmitMod = 2000
